@@ -76,8 +76,27 @@ def c08_suites(tier, seed):
     return s
 
 
+def c05_suites(tier, seed):
+    q = tier == "quick"
+    chk = {"p_dbcheck": 1.0, "file": True}
+    s = []
+    s.append(("bucket-deletes", suite_random(seed + 10, 150 if q else 4000, dict(chk, families=["tiny", "short", "deep"], p_bucket_ops=0.5, nest=4, p_delete=0.2), "bd")))
+    s.append(("rand-deep", suite_random(seed + 11, 120 if q else 3000, dict(chk, families=["deep", "short"]), "fd")))
+    s.append(("rand-mixed", suite_random(seed + 12, 80 if q else 2000, dict(chk, families=["deep", "mid", "tiny", "short", "huge"], txs=5), "fm")))
+    s.append(("rand-4096", suite_random(seed + 13, 20 if q else 500, dict(chk, families=["mid", "tiny", "deep"], pagesize=4096, ops=200, txs=4), "f4")))
+    import random
+    r = random.Random(seed)
+    rs = [(i, j) for i in range(40) for j in range(i + 1, 41)]
+    r.shuffle(rs)
+    s.append(("enum-40-buckets", hists_of(jgen.gen_range_deletes(40, every_bucket=4, prefix="fb40", ranges=rs[:60] if q else None))))
+    s.append(("enum-40", hists_of(jgen.gen_range_deletes(40, prefix="f40", ranges=rs[60:260] if q else None))))
+    s.append(("enum-2leaf", hists_of(jgen.gen_range_deletes(5, klen=8, vlen=300, prefix="f5"))))
+    return s
+
+
 PROPS = {
-    "C01": {"suites": c01_suites, "level": "proof", "corpus": ["C01", "C05", "C08", "C07"]},
+    "C05": {"suites": c05_suites, "level": "other", "corpus": ["C05", "C01"]},
+    "C01": {"suites": c01_suites, "level": "other", "corpus": ["C01", "C05", "C08", "C07"]},
     "C07": {"suites": c07_suites, "level": "proof", "corpus": ["C07", "C08"]},
     "C08": {"suites": c08_suites, "level": "proof", "corpus": ["C08", "C07"]},
 }
